@@ -122,6 +122,19 @@ func c14Monitor(args []string) int {
 					accepted++
 					kinds = append(kinds, kind)
 					stopIssued = append(stopIssued, false)
+					if (kind == "infinite" || kind == "ponder") && rng.Chance(40) {
+						// the Hash option arrives during the search (size written, resize refused) and isready follows
+						// while the same search is still running
+						sleepShort()
+						config.Settings.Search.TTSize = 1 + rng.Intn(4)
+						if !call("resizehash", func() { s.ResizeCache() }) {
+							break
+						}
+						if !call("isready", func() { s.IsReady() }) {
+							break
+						}
+						rep.Stats["hash_size_changed_then_isready_during_search"]++
+					}
 				}
 			case r < 12:
 				if len(stopIssued) > 0 {
@@ -141,6 +154,9 @@ func c14Monitor(args []string) int {
 			case r < 15:
 				call("clearhash", func() { s.ClearHash() })
 			case r < 16:
+				// as the handler of the Hash option does: the configured size is written first, then the resize is
+				// requested (and refused while a search is running: configuration and table then differ)
+				config.Settings.Search.TTSize = 1 + rng.Intn(4)
 				call("resizehash", func() { s.ResizeCache() })
 			case r < 17:
 				call("isready", func() { s.IsReady() })
